@@ -190,6 +190,7 @@ def _decompress(ex, name, bs):
     okp = bor(int_binop('==', pre, 2, 8, False), int_binop('==', pre, 3, 8, False))
     ok = z3.And(tobool(okp), z3.ULT(X, z3.BitVecVal(p, W)), DECOMP_OK(cid(name), X))
     Y = DECOMP_Y(cid(name), X, tobv(pre, 8))
+    ex.pstate.setdefault('decomp_terms', []).append((name, X, tobv(pre, 8)))
     # field fact (no point of order 2, p odd): a reduced on-curve point (X0, Y0) is what decompression of
     # (parity(Y0), X0) returns. Instantiated for the on-curve terms that occur on this path.
     P = z3.BitVecVal(p, W)
@@ -361,6 +362,19 @@ def refine_oncurve(ex, m, neg):
         gx, gy = GEN[name]
         extra.append(z3.And(X == z3.BitVecVal(gx, W), Y == z3.BitVecVal(gy, W)))
         break
+    if not extra:
+        # same for 'some x that decompresses': the generator's x with the prefix of its y parity
+        for (name, X, pre) in ex.pstate.get('decomp_terms', []):
+            if isinstance(X, int):
+                continue
+            try:
+                if not z3.is_true(m.eval(DECOMP_OK(cid(name), X), model_completion=True)):
+                    continue
+            except z3.Z3Exception:
+                continue
+            gx, gy = GEN[name]
+            extra.append(z3.And(X == z3.BitVecVal(gx, W), pre == z3.BitVecVal(2 + (gy & 1), 8)))
+            break
     return extra
 
 def install(ex):
